@@ -485,7 +485,7 @@ NextAllowed(n) ==
   IN IF Len(es) = 0
      THEN IF q.kind = "logout" /\ flt[q.f].logout THEN (IF q.cookie = "none" THEN {"R:endsession"} ELSE {"S:RemoveSession"})
           ELSE IF q.cookie = "none" THEN {"S:SetAuthorizationState"}
-          ELSE IF q.kind = "callback" THEN (IF q.states = <<>> \/ q.codes = <<>> THEN {"R:deny"} ELSE {"S:GetAuthorizationState"})
+          ELSE IF q.kind = "callback" THEN (IF q.states = <<>> \/ q.codes = <<>> \/ q.states[1] = "none" \/ q.codes[1] = "none" THEN {"R:deny"} ELSE {"S:GetAuthorizationState"})   \* (an empty first value counts as missing)
           ELSE {"S:GetTokenResponse"}
      ELSE
       LET x == es[Len(es)]
